@@ -377,7 +377,13 @@ fn check_point(cx: &mut Ctx, s: &dyn DynSampler, cached_spec: Option<f64>, ri: u
         let vt = if fm > 0.0 { fm / um } else { 1.0 };
         let target = um.powf(-(d as f64) / 2.0) * vt.powf(-line.dod);
         let sspec = target.powf(1.0 / (d as f64 / 2.0 * l as f64 + line.dod));
-        if !(target.is_normal() && sspec.is_normal() && um.is_normal() && xun.iter().all(|v| v.is_normal())) {
+        // the same for the tropical values the code logged (for kinematics that are not generic its flag-based v_trop may be far
+        // below the largest F monomial with a non-zero coefficient): the documented rescaling formula overflows at such a
+        // point whatever the implementation does
+        let target_code = utr.powf(-(d as f64) / 2.0) * (1.0 / vtr).powf(line.dod);
+        let s_code = target_code.powf(1.0 / (d as f64 / 2.0 * l as f64 + line.dod));
+        let code_range_ok = !(utr.is_normal() && vtr.is_normal()) || (target_code.is_normal() && s_code.is_normal() && (1.0 / vtr).powf(line.dod).is_normal() && utr.powf(-(d as f64) / 2.0).is_normal());
+        if !(target.is_normal() && sspec.is_normal() && um.is_normal() && xun.iter().all(|v| v.is_normal()) && code_range_ok) {
             cx.sm.count("skipped_range");
             return None;
         }
